@@ -1,6 +1,6 @@
 //verif:pkg .
 //verif:use servers_mcp
-//verif:bound framing: one message of 1..5 (thorough: 1..9) symbolic bytes (every byte >= 0x20, or LF) through sseutil.Writer.WriteEvent, formatSSEEvent and the stdio line writer, read back by a reference reader; interleaving: two writers on one stream whose Write is adversarial (one Write - every choice of which - blocks after its bytes were recorded until another writer has written and gone quiet, or 100 ms passed): two stdio responses, two notifications on one GET stream, a server-issued request and a notification on one GET stream, a response and a notification on one legacy SSE session
+//verif:bound framing: one message of 1..5 (thorough: 1..9) symbolic bytes (every byte >= 0x20, or LF) through sseutil.Writer.WriteEvent, formatSSEEvent and the stdio line writer, read back by a reference reader; interleaving: two writers on one stream whose Write is adversarial (one Write - every choice of which - blocks after its bytes were recorded until another writer has written and gone quiet, or 100 ms passed): two stdio responses, two notifications on one GET stream, a server-issued request and a notification on one GET stream, a response and a notification on one legacy SSE session, the keep-alive comment of a legacy session while a frame's Write is in progress (partly written)
 //verif:assume JSON text contains no byte < 0x20 (json.Marshal escapes control characters, U+2028 and U+2029); pipe-buffer / bufio size boundaries and json.Encoder internals are outside the claim
 package mcp
 
@@ -102,6 +102,9 @@ type c09Gate struct {
 	data    []byte
 	n       int
 	blockAt int
+	split   bool // the blocking Write is "in progress": its first bytes are on the wire when it blocks
+	inWrite int  // Writes currently executing
+	overlap bool // a Write began while another one was still executing
 	other   chan struct{}
 	header  http.Header
 }
@@ -113,7 +116,20 @@ func newC09Gate(blockAt int) *c09Gate {
 func (g *c09Gate) Write(p []byte) (int, error) {
 	k := g.n
 	g.n++
-	g.data = append(g.data, p...)
+	if g.inWrite > 0 {
+		g.overlap = true
+	}
+	g.inWrite++
+	defer func() { g.inWrite-- }()
+	rest := []byte(nil)
+	if k == g.blockAt && g.split && strings.HasPrefix(string(p), "event: ") {
+		// the first bytes of the frame are out, the rest follows when the Write resumes
+		g.data = append(g.data, []byte("event: ")...)
+		rest = p[len("event: "):]
+	} else {
+		g.data = append(g.data, p...)
+	}
+	defer func() { g.data = append(g.data, rest...) }()
 	if k == g.blockAt {
 		// forget the writes that happened before: wait for a Write issued from now on, then until the
 		// other writer has been quiet for 20 ms (or give up after 100 ms when nobody else writes)
@@ -190,6 +206,7 @@ func H_C09_stdio_two_responses() {
 	<-done
 	<-done
 	msgs, ok := c09Lines(string(g.data))
+	vAssert("writes-are-mutually-exclusive", !g.overlap)
 	vAssert("every-line-is-one-message", ok)
 	vAssert("two-messages", len(msgs) == 2)
 	if ok && len(msgs) == 2 {
@@ -244,6 +261,7 @@ func H_C09_get_stream_two_notifications() {
 	<-done
 	<-done
 	evs, ok := c09ReadSSE(string(g.data))
+	vAssert("writes-are-mutually-exclusive", !g.overlap)
 	vAssert("stream-parses", ok)
 	vAssert("two-events", len(evs) == 2)
 	a, b, all := c09Markers(evs)
@@ -284,6 +302,7 @@ func H_C09_get_stream_request_and_notification() {
 	cancel()
 	<-done
 	evs, ok := c09ReadSSE(string(g.data))
+	vAssert("writes-are-mutually-exclusive", !g.overlap)
 	vAssert("stream-parses", ok)
 	vAssert("two-events", len(evs) == 2)
 	a, b, all := c09Markers(evs)
@@ -311,10 +330,50 @@ func H_C09_legacy_session_writers() {
 	out := string(g.data)
 	session.writeMu.Unlock()
 	evs, ok := c09ReadSSE(out)
+	vAssert("writes-are-mutually-exclusive", !g.overlap)
 	vAssert("stream-parses", ok)
 	vAssert("two-events", len(evs) == 2)
 	a, b, all := c09Markers(evs)
 	vAssert("each-event-is-one-message", all)
 	vAssert("both-frames-recovered", vAnd(a, b))
+	vReach("end")
+}
+
+// H_C09_legacy_keepalive_vs_frame: the keep-alive ticker of a legacy SSE session fires while a frame of the
+// same session is being written (the frame's Write is in progress: its first bytes are out).
+func H_C09_legacy_keepalive_vs_frame() {
+	vTickers(true)
+	srv := NewSSEServer("srv", "1.0")
+	session := &sseSession{done: make(chan struct{}), eventQueue: make(chan string, 100), sessionID: "s1",
+		notificationChannel: make(chan *JSONRPCNotification, 100), data: make(map[string]interface{})}
+	srv.sessions.Store("s1", session)
+	g := c09GateHTTP{newC09Gate(0)}
+	g.split = true
+	which := vChoice("frame", 2)
+	ctx, cancel := context.WithCancel(context.Background())
+	go handleNotifications(ctx, srv.logger, g, g, session)
+	go handleEventQueue(ctx, srv.logger, g, g, session)
+	if which == 0 {
+		session.eventQueue <- formatSSEEvent("message", []byte(`{"jsonrpc":"2.0","id":"A","result":{}}`))
+	} else {
+		session.notificationChannel <- NewJSONRPCNotificationFromMap("n/x", map[string]interface{}{"m": "B"})
+	}
+	vQuiesce()
+	// the frame's Write is blocked half way; now the keep-alive ticker starts firing
+	go handleKeepAlive(ctx, srv.logger, g, g, session, 10*time.Millisecond)
+	time.Sleep(150 * time.Millisecond)
+	vQuiesce()
+	cancel()
+	vQuiesce()
+	session.writeMu.Lock()
+	out := string(g.data)
+	session.writeMu.Unlock()
+	evs, ok := c09ReadSSE(out)
+	vAssert("writes-are-mutually-exclusive", !g.overlap)
+	vAssert("stream-parses", ok)
+	vAssert("one-event", len(evs) == 1)
+	a, b, all := c09Markers(evs)
+	vAssert("the-event-is-one-message", all)
+	vAssert("frame-recovered", vOr(a, b))
 	vReach("end")
 }
